@@ -48,6 +48,8 @@ ASPECT_OWNERS = {
 # aspects whose mismatch cannot corrupt the model's channel state: a check
 # that does not own them counts the mismatch and carries on
 SOFT = {"usage", "current", "blur", "list", "timer"}
+# mismatches of frames that carry no state (deliveries, replays)
+ANSWER_ONLY = {"fanout", "replay", "stray-frame"}
 # mismatches of the *stored state* (not of an answer)
 STATE_ASPECTS = {"expiry-lost-messages", "np-life", "mb-life", "msg-rows", "orphan-rows", "expiry-safety", "expiry-liveness", "expiry-collateral", "np-dup"}
 
@@ -129,6 +131,11 @@ class ModelObserver(Observer):
 
     # ---------------------------------------------------------------- util
     def mm(self, aspect, msg):
+        if aspect in ANSWER_ONLY and aspect not in self.owned:
+            # a wrong delivery/replay does not touch the model's state: a check
+            # that does not own the aspect counts it and carries on
+            self.count("foreign_ignored_" + aspect)
+            return
         raise Mismatch(aspect, msg)
 
     def soft(self, fn, *a):
@@ -431,7 +438,7 @@ class ModelObserver(Observer):
             return
         mb = self.mb.get((app, np.mailbox))
         if mb is None:
-            self.mm("np-life", "model inconsistency: nameplate %r without mailbox" % name)
+            raise Mismatch("model-inconsistency", "model inconsistency: nameplate %r without mailbox" % name)
         mb.last_touch = t
         sd = np.sides.get(S)
         if sd is not None and not sd.flag and S not in np.refused:
@@ -628,7 +635,7 @@ class ModelObserver(Observer):
         app, S, t = cs.app, cs.side, st.t
         key = self.sub_of.get(cid)
         if key is None or key not in self.mb:
-            self.mm("fanout", "model inconsistency: add on a connection without subscription")
+            raise Mismatch("model-inconsistency", "model inconsistency: add on a connection without subscription")
         mb = self.mb[key]
         item = (S, msg["phase"], msg["body"], msg.get("id"))
         mb.msgs.append(item)
@@ -642,6 +649,7 @@ class ModelObserver(Observer):
             got = per.pop(c, [])
             if len(got) != 1 or got[0].get("type") != "message":
                 self.mm("fanout", "add on %r: subscriber c%d received %r instead of exactly one message" % (mb.id, c, got))
+                continue
             f = got[0]
             if (f.get("side"), f.get("phase"), f.get("body"), f.get("id")) != item:
                 self.mm("fanout", "add %r by side %r delivered to c%d as %r" % (msg, S, c, f))
@@ -692,7 +700,7 @@ class ModelObserver(Observer):
                 self.note("close_by_new_side")
         else:
             if mb is None:
-                self.mm("mb-life", "model inconsistency: held mailbox %r unknown" % mid)
+                raise Mismatch("model-inconsistency", "model inconsistency: held mailbox %r unknown" % mid)
             mb.last_touch = t
         if [f.get("type") for f in fs] != ["closed"]:
             self.mm("mb-life", "close of %r by %r answered %r instead of closed" % (mid, S, fs))
